@@ -6,7 +6,9 @@ package main
 
 import (
 	"context"
+	"errors"
 	"fmt"
+	"os"
 	"sort"
 	"strings"
 	"time"
@@ -55,6 +57,8 @@ type delayedValidator struct {
 	inner   disruption.Validator
 	between func()
 	prop    []disruption.Command
+	// the re-simulation of validateCommand disagreed with the command (not a budget matter)
+	schedulingRejected bool
 }
 
 func (d *delayedValidator) Validate(ctx context.Context, cmd disruption.Command, _ time.Duration) (disruption.Command, error) {
@@ -62,7 +66,12 @@ func (d *delayedValidator) Validate(ctx context.Context, cmd disruption.Command,
 	if d.between != nil {
 		d.between()
 	}
-	return d.inner.Validate(ctx, cmd, 0)
+	out, err := d.inner.Validate(ctx, cmd, 0)
+	var se *disruption.SchedulingValidationError
+	if err != nil && errors.As(err, &se) {
+		d.schedulingRejected = true
+	}
+	return out, err
 }
 
 func (w *world) newMethod(m int, val disruption.Validator, real bool) disruption.Method {
@@ -705,7 +714,15 @@ func runRounds(c *kit.Ctx, r *kit.Rand, nOps int) {
 		s.nodes[n.ID] = &n
 		s.order = append(s.order, n.ID)
 	}
+	pools0 := append([]jPool(nil), pools...) // the JSON form shows the initial budgets
 	sys0 := s.gSys()
+	debug := os.Getenv("C05_DEBUG_CASE") == fmt.Sprint(c.NextID())
+	if debug {
+		for n := range w.cluster.Nodes() {
+			fmt.Fprintln(os.Stderr, "DEBUG initial", n.Name(), "marked", n.MarkedForDeletion(), "init", n.Initialized())
+		}
+		fmt.Fprintln(os.Stderr, "DEBUG sys0", sys0)
+	}
 	clusterCost := cost.NewClusterCost(w.ctx, w.cp, w.c)
 	var gops []string
 	var jops []jOp
@@ -791,6 +808,12 @@ func runRounds(c *kit.Ctx, r *kit.Rand, nOps int) {
 			if _, err := ctrl.Reconcile(w.ctx); err != nil {
 				panic(fmt.Sprintf("Reconcile(%s): %v", methodNames[m], err))
 			}
+			if debug {
+				fmt.Fprintln(os.Stderr, "DEBUG disrupt", methodNames[m], "mapping", rec.mapping, "cmds", cmdIDs(rec.cmds))
+				for n := range w.cluster.Nodes() {
+					fmt.Fprintln(os.Stderr, "DEBUG   ", n.Name(), "marked", n.MarkedForDeletion(), "init", n.Initialized())
+				}
+			}
 			after := queued()
 			var newq []int
 			for id := range after {
@@ -822,6 +845,8 @@ func runRounds(c *kit.Ctx, r *kit.Rand, nOps int) {
 				accepted++
 				cmdsInFlight = append(cmdsInFlight, newq)
 				c.Count("R:" + methodNames[m] + ":command-accepted")
+			} else if len(proposed) > 0 && dv.schedulingRejected {
+				c.Count("R:" + methodNames[m] + ":proposal-rejected-by-re-simulation")
 			} else if len(proposed) > 0 {
 				c.Count("R:" + methodNames[m] + ":proposal-rejected-by-validation")
 			} else if rec.called {
@@ -829,7 +854,7 @@ func runRounds(c *kit.Ctx, r *kit.Rand, nOps int) {
 			} else {
 				c.Count("R:" + methodNames[m] + ":no-candidates")
 			}
-			gops = append(gops, fmt.Sprintf("(ODisrupt %s %s (ChK %d) %s %s [] %s, %s)", methodNames[m], kit.GListOf(jc, gCand), len(proposed),
+			gops = append(gops, fmt.Sprintf("(ODisrupt %s %s (ChK %d) %s %s %s [] %s, %s)", methodNames[m], kit.GListOf(jc, gCand), len(proposed), kit.GBool(!dv.schedulingRejected),
 				kit.GList(betweenTerms), kit.GListOf(cur, gCand), kit.GListOf(cur, gCand), gInts(newq)))
 			jops = append(jops, jOp{Op: "disrupt", Method: methodNames[m], Between: between, Cands: jc, Proposed: proposed, NewQueue: newq, Mapping: rec.mapping})
 		case x < 9 && len(cmdsInFlight) > 0:
@@ -889,7 +914,7 @@ func runRounds(c *kit.Ctx, r *kit.Rand, nOps int) {
 	if accepted > 0 {
 		key = "R:" + strings.Join(gops, ";")
 	}
-	c.AddCase(fmt.Sprintf("CaseR %s %s", sys0, kit.GList(gops)), caseR{"rounds", pools, nodes, jops}, key)
+	c.AddCase(fmt.Sprintf("CaseR %s %s", sys0, kit.GList(gops)), caseR{"rounds", pools0, nodes, jops}, key)
 }
 
 func partRounds(c *kit.Ctx) {
